@@ -392,7 +392,7 @@ def enumerate_cases(run):
     triples = [(i, j, k) for i in range(nk) for j in range(nk) for k in range(nk)]
     if not thorough:
         rng.shuffle(triples)
-        triples = triples[:1400]
+        triples = triples[:900]
     for (i, j, k) in triples:
         steps = [layer_kinds(1)[i], layer_kinds(2)[j], layer_kinds(3)[k]]
         mode = (i + 2 * j + 3 * k) % 4 if not thorough else None
@@ -422,7 +422,7 @@ def enumerate_cases(run):
                               [F(A, ("tag", 6), add1)], [], []))
     # random deeper chains with multi-member layers and nested objects
     g = Gen(rng.fork("rand"))
-    nrand = 40000 if thorough else 1200
+    nrand = 40000 if thorough else 900
     for k in range(nrand):
         cases.append(g.obj(2, 0, 1 + k % 6))
     return cases
@@ -621,12 +621,31 @@ def check(run, terrs):
         run.obligation("harness.build", False, err)
         return core.conclude(run, False, err, [], [])
     failures, model_diffs = correspond(run, binary, enumerate_cases(run))
+    failures.extend(known_canary(run, binary))
     run.trusted = TRUSTED
     run.assumptions = ASSUMPTIONS
     return core.conclude(
         run, proofs_ok, detail, failures, model_diffs,
         search=(lambda: search(run, binary)) if run.tier == "quick" else None,
         level="proof", rule=RULE)
+
+
+CANARY = "{assert self.b == 1, b: self.b}"
+
+
+def known_canary(run, binary):
+    """Regression canary for the defect fixed in d2ceb7b: a field-read cycle entered while the object's own
+    assertion is running used to recurse without bound (get_idx exempted Pending entries while asserting).
+    It must now be an error.  Programs of that class are otherwise recognised by the model running out of
+    fuel and are not sent to the real code by correspond()."""
+    outs = core.run_harness(binary, "eval", [{"code": CANARY, "out": "minify"}], timeout=30, shards=1)
+    o = outs[0] if outs else {}
+    run.count("canary")
+    if "err" in o:
+        return []
+    return [{"case": {"jsonnet": CANARY, "probe": CANARY},
+             "summary": f"C02 cyclic read under a running object assertion is not reported as an error: {CANARY}",
+             "what": "cyclic read during an assertion run", "expected": "an error (infinite recursion)", "got": o}]
 
 
 def search(run, binary):
@@ -715,7 +734,8 @@ def correspond(run, binary, cases, quiet=False):
             model_diffs.append({"case": case, "what": what, "model": repr(model_v)[:300], "code": repr(code_v)[:300]})
 
         if impl_r != spec_r:
-            # the theorem C02_eval_refines says this cannot happen
+            # C02_get_refines / _has_refines / _visibility_refines / _fields_visibility_agrees say this cannot
+            # happen on well-formed layer lists
             run.obligation("model.impl_equals_spec", False, f"{pjs[:200]}: impl {impl_r!r:.200} spec {spec_r!r:.200}")
         if spec_r[0] != "ok":
             # building the object itself failed in the model: every request must fail alike
@@ -794,7 +814,7 @@ def replay(run, data):
 RULE = ("chain programs over names {a,b,c}: exhaustive 1- and 2-step chains over a 27-entry layer catalogue "
         "(plain, +:, ::, :::, +::, +:::, self/super/$ reads, `in super`, `in self`, object-local, assert, nested "
         "object, +: on nested object, two-member layers, empty literal, removeKey a / b) in both join forms "
-        "(`+`, extension), 3-step chains (quick: seeded sample of 1400 with one of 4 join/grouping variants; "
+        "(`+`, extension), 3-step chains (quick: seeded sample of 900 with one of 4 join/grouping variants; "
         "thorough: all 27^3 x 4), a removal-nesting family, random chains of 1-6 layers with 0-3 members per "
         "layer, locals, asserts and nested objects to depth 2; distinct = distinct Jsonnet text; non-trivial = "
         "at least two layers")
